@@ -7,9 +7,15 @@
 //!   xlab lru   --behaviours <jsonl> --out <ndjson>                   engine/src/lru_index.rs + vector_cache.rs
 //!   xlab alog  --behaviours <jsonl> --out <ndjson> [--threads N]     engine/src/access_logger.rs
 //!   xlab usage --behaviours <jsonl> --out <ndjson> --dir <scratch>   engine/src/usage_tracker.rs
+//!   xlab adm   --behaviours <jsonl> --out <ndjson>                   engine/src/adaptive_admission.rs
+//!   xlab ovs   --behaviours <jsonl> --out <ndjson>                   engine/src/adaptive_oversampling.rs
+//!   xlab coh   --behaviours <jsonl> --out <ndjson>                   engine/src/coherence.rs
 
+mod adm;
 mod alog;
+mod ovs;
 mod cb;
+mod coh;
 mod lru;
 mod usage;
 mod util;
@@ -18,12 +24,15 @@ fn main() {
     let args: Vec<String> = std::env::args().collect();
     let sub = args.get(1).map(|s| s.as_str()).unwrap_or("");
     let r = match sub {
+        "adm" => adm::main(&args[2..]),
+        "ovs" => ovs::main(&args[2..]),
+        "coh" => coh::main(&args[2..]),
         "cb" => cb::main(&args[2..]),
         "lru" => lru::main(&args[2..]),
         "alog" => alog::main(&args[2..]),
         "usage" => usage::main(&args[2..]),
         _ => {
-            eprintln!("usage: xlab cb|lru|alog|usage --behaviours <jsonl> --out <ndjson>");
+            eprintln!("usage: xlab cb|lru|alog|usage|adm|ovs|coh --behaviours <jsonl> --out <ndjson>");
             std::process::exit(2);
         }
     };
